@@ -169,3 +169,60 @@ Proof.
   split; [repeat constructor; simpl; tauto|]. split; [|exact I].
   intros _ i [<-|[<-|[]]]; vm_compute; congruence.
 Qed.
+
+(* ---- from the constructor to the destructor: the hypothesis `holds` of the whole-life theorem is what the
+   constructors establish.  A record created by `new` (every field supplied) or by `new_uninit` followed by one
+   write per field left out (plain fields only), carried through any chain of conversions (complete or uninit
+   forms) with any reads and writes in between, then dropped: no step faults, and what was destroyed plus what
+   conversions handed back is exactly what entered - the constructor's droppable arguments included. *)
+Theorem C06_life_from_new : forall ds TI rt A cap, rt_ok rt = true ->
+  forall (stages : list ustage) P vals v0 v,
+  layout_ok ds TI A cap P -> uchain_ok ds TI A cap P stages -> layout_ok ds TI A cap (ulast_data P stages) ->
+  exists r bf d back dropped,
+    op_new ds TI rt A cap v0 P vals = Ok (ORecord r, []) /\
+    uchain_run ds TI rt A cap r stages = Ok (bf, d, back) /\
+    op_drop ds TI rt A cap v (ulast_data P stages) bf = Ok (ONone, dropped) /\
+    Permutation (d ++ dropped ++ back) (map vals (filter (dr ds TI) P) ++ uentered ds TI stages).
+Proof.
+  intros ds TI rt A cap RT stages P vals v0 v LP Hc LL.
+  destruct (new_holds ds TI rt A cap RT P LP v0 vals) as (r & E & H).
+  destruct (uchain_then_drop ds TI rt A cap RT stages P vals r v LP Hc H LL) as (bf & d & back & dropped & E1 & E2 & Pm).
+  exists r, bf, d, back, dropped. auto.
+Qed.
+Print Assumptions C06_life_from_new.
+
+Theorem C06_life_from_new_uninit : forall ds TI rt A cap, rt_ok rt = true ->
+  forall (stages : list ustage) P vals f v0 v,
+  layout_ok ds TI A cap P -> uchain_ok ds TI A cap P stages -> layout_ok ds TI A cap (ulast_data P stages) ->
+  (forall i, In i P -> un ds i = true -> dr ds TI i = false) ->
+  exists r0 r bf d back dropped,
+    op_new_uninit ds TI rt A cap v0 P vals = Ok (ORecord r0, []) /\
+    life ds TI rt r0 (assign_all f (filter (un ds) P)) = Ok (r, []) /\
+    uchain_run ds TI rt A cap r stages = Ok (bf, d, back) /\
+    op_drop ds TI rt A cap v (ulast_data P stages) bf = Ok (ONone, dropped) /\
+    Permutation (d ++ dropped ++ back) (map vals (filter (dr ds TI) P) ++ uentered ds TI stages).
+Proof.
+  intros ds TI rt A cap RT stages P vals f v0 v LP Hc LL Hplain.
+  destruct (new_uninit_then_fill ds TI rt A cap RT P LP v0 vals f Hplain) as (r0 & r & vals1 & E0 & E1 & H & Hv).
+  destruct (uchain_then_drop ds TI rt A cap RT stages P vals1 r v LP Hc H LL) as (bf & d & back & dropped & E2 & E3 & Pm).
+  exists r0, r, bf, d, back, dropped. repeat (split; [assumption|]).
+  (* the droppable fields are the ones supplied: vals1 = vals on them *)
+  replace (map vals (filter (dr ds TI) P)) with (map vals1 (filter (dr ds TI) P)); [exact Pm|].
+  apply map_ext_in. intros i Hi. apply filter_In in Hi. destruct Hi as [Hi Hd]. rewrite (Hv i Hi).
+  destruct (un ds i) eqn:Eu; auto. rewrite (Hplain i Hi Eu) in Hd. discriminate.
+Qed.
+Print Assumptions C06_life_from_new_uninit.
+
+(* the same life ended by unpack instead of Drop: nothing more is destroyed, every field of the last variant is handed
+   back, and the droppable ones among them are exactly what is still owed *)
+Theorem C06_whole_life_uninit_unpack : forall ds TI rt A cap, rt_ok rt = true ->
+  forall (stages : list ustage) P vals b v,
+  layout_ok ds TI A cap P -> uchain_ok ds TI A cap P stages -> holds ds TI cap A P vals b ->
+  layout_ok ds TI A cap (ulast_data P stages) ->
+  exists bf valsf d r, uchain_run ds TI rt A cap b stages = Ok (bf, d, r) /\
+    op_unpack ds TI rt A cap v (ulast_data P stages) bf =
+      Ok (OUnpacked (map (fun i => (nm ds i, Some (valsf i))) (ulast_data P stages)), []) /\
+    Permutation (d ++ r ++ map valsf (filter (dr ds TI) (ulast_data P stages)))
+                (map vals (filter (dr ds TI) P) ++ uentered ds TI stages).
+Proof. intros ds TI rt A cap RT. exact (uchain_then_unpack ds TI rt A cap RT). Qed.
+Print Assumptions C06_whole_life_uninit_unpack.
